@@ -72,6 +72,14 @@ fn rx_windows_check(m: &Mac, dr: u8, f_up: u32, f_rx1: u32) {
     let exp2 = m.region.get_datarate(d2).unwrap();
     assert!(w.rx2.bb.sf == exp2.spreading_factor && w.rx2.bb.bw == exp2.bandwidth && w.rx2.max_payload_len == exp2.max_mac_payload_size,
         "C10 RX2 at the negotiated data rate, else the regional default");
+    // C10 "Class C listening between windows uses the RX2 parameters" (of the data rate in force)
+    #[cfg(feature = "class-c")]
+    if m.configuration.data_rate as u8 == dr {
+        let c = m.get_rxc_config();
+        assert!(matches!(c.mode, crate::radio::RxMode::Continuous), "C10 Class C listening is continuous");
+        assert!(c.rf.frequency == w.rx2.frequency && c.rf.bb.sf == w.rx2.bb.sf && c.rf.bb.bw == w.rx2.bb.bw && c.rf.max_payload_len == w.rx2.max_payload_len,
+            "C10 Class C listening between the windows uses the RX2 parameters");
+    }
 }
 fn rx_windows_contract(ri: usize) {
     tape::init();
@@ -90,6 +98,7 @@ fn rx_windows_contract(ri: usize) {
             while off < 8 {
                 if m.region.rx1_dr_offset_validate(off).is_some() {
                     m.configuration.rx1_dr_offset = off;
+                    m.configuration.data_rate = DR::from(dr);
                     rx_windows_check(&m, dr, f_up, f_rx1);
                 }
                 off += 1;
@@ -103,6 +112,7 @@ fn rx_windows_contract(ri: usize) {
     while o < 15 {
         if dr_defined(&m.region, o) {
             m.configuration.rx2_data_rate = Some(DR::from(o));
+            m.configuration.data_rate = DR::from(first_defined);
             rx_windows_check(&m, first_defined, f_up, f_rx1);
         }
         o += 1;
@@ -227,3 +237,57 @@ fn c11_mac_unjoined_states() {
     assert!(m.get_fcnt_up().is_none() && m.get_session().is_none(), "no session");
     kani::cover!(true, "verif-reached: end");
 }
+
+// ------------------------------------------------------------------ Mac::handle_rx / handle_rxc hand-off (C05-C07 lifted, C04)
+/// ghost of the Session::handle_rx contract-stub: how often it ran and with which window arguments
+pub(crate) static mut HRX: (u8, bool, u8) = (0, false, 0);
+pub(crate) fn stub_session_handle_rx<const N: usize, const D: usize>(_s: &mut Session, _region: &mut region::Configuration, _configuration: &mut Configuration,
+    _rx: &mut RadioBuffer<N>, _dl: &mut Vec<Downlink, D>, max_payload_len: u8, _snr: i8, ignore_mac: bool) -> Response {
+    unsafe { HRX = (HRX.0 + 1, ignore_mac, max_payload_len); }
+    // any response kind Session::handle_rx's contract allows
+    match tape::stub_u8() % 4 { 0 => Response::NoUpdate, 1 => Response::DownlinkReceived(tape::stub_u8() as u32), 2 => Response::SessionExpired, _ => Response::NoAck }
+}
+fn mac_rx_handoff(class_c: bool) {
+    tape::init();
+    let joined = tape::boolean();
+    let state = if joined { State::Joined(any_joined_session()) } else { State::Unjoined };
+    let mut m = any_mac(region::Configuration::new(region::Region::EU868), state);
+    let old_cfg = m.configuration;
+    let mut rx: RadioBuffer<64> = RadioBuffer::new();
+    let mut dl: Vec<Downlink, 1> = Vec::new();
+    let d = m.region.get_datarate(0).unwrap();
+    let rf = RfConfig { frequency: tape::u32(), bb: BaseBandModulationParams::new(d.spreading_factor, d.bandwidth, m.region.get_coding_rate()), max_payload_len: tape::u8() };
+    let snr = tape::i8();
+    let h = unsafe { &*(&raw const HRX) };
+    if class_c {
+        #[cfg(feature = "class-c")]
+        {
+            let r = m.handle_rxc::<64, 1>(&mut rx, &mut dl, snr, &rf);
+            if joined {
+                assert!(r.is_ok() && h.0 == 1 && h.1 && h.2 == rf.max_payload_len, "C08/C10 a frame heard while listening Class C goes to the session once, with MAC commands ignored and the window's size limit");
+            } else {
+                assert!(r.is_err() && h.0 == 0 && m.configuration == old_cfg && !m.is_joined(), "C07 no session: a Class C frame changes nothing");
+            }
+        }
+    } else {
+        let _r = m.handle_rx::<64, 1>(&mut rx, &mut dl, snr, &rf);
+        if joined {
+            assert!(h.0 == 1 && !h.1 && h.2 == rf.max_payload_len, "C08 a frame heard in a Class A window goes to the session once, MAC commands handled, with the window's size limit");
+        } else {
+            assert!(h.0 == 0 && m.configuration == old_cfg && !m.is_joined(), "C07 no session: a frame changes nothing");
+        }
+    }
+    assert!(m.is_joined() == joined, "the hand-off neither creates nor destroys a session");
+    kani::cover!(joined, "verif-reached: joined");
+    kani::cover!(!joined, "verif-reached: not joined");
+}
+// @verif props=C04,C07,C08 obligation=Mac::handle_rx.handoff label=proved-complete tier=quick bound="joined (any session) or unjoined; Session::handle_rx contract-stubbed"
+#[kani::proof]
+#[kani::stub(crate::mac::session::Session::handle_rx, stub_session_handle_rx)]
+#[kani::unwind(18)]
+fn c07_mac_handle_rx_handoff() { mac_rx_handoff(false) }
+// @verif props=C04,C07,C10 obligation=Mac::handle_rxc.handoff label=proved-complete tier=quick bound="joined (any session) or unjoined; Session::handle_rx contract-stubbed"
+#[kani::proof]
+#[kani::stub(crate::mac::session::Session::handle_rx, stub_session_handle_rx)]
+#[kani::unwind(18)]
+fn c07_mac_handle_rxc_handoff() { mac_rx_handoff(true) }
